@@ -140,9 +140,15 @@ Definition a_add_i64_ordered (e : env) (off delta : Z) : M unit :=
   nv <~ lift (add64 (e_m e) (wrap64 (le_val v)) delta) ;;
   a_put_ordered e 8 off (le_byte nv).
 
-(* n = src.len() (a usize); the check sees `src.len() as Index` *)
+(* The length n of a slice argument (a usize) as the Index handed to the bounds check: either `n as Index`
+   (the high bits are dropped) or a checked conversion that panics above Index::MAX.  Which one an accessor uses
+   is read off the source on every run (gen_chk_* in Generated/GenBounds.v). *)
+Definition slice_len (checked : bool) (n : Z) : outcome Z :=
+  if checked then (if n <? two31 then Ok n else Panic) else Ok (wrap32 n).
+
+(* n = src.len() *)
 Definition a_put_bytes (e : env) (off n : Z) (f : Z -> Z) : M unit :=
-  _ <~ hook e off ;; _ <~ check e off (wrap32 n) ;; wr e off n f.
+  _ <~ hook e off ;; l <~ lift (slice_len gen_chk_put_bytes n) ;; _ <~ check e off l ;; wr e off n f.
 
 Definition a_get_bytes (e : env) (sz off : Z) : M (list Z) :=
   _ <~ hook e off ;; _ <~ check e off sz ;; rd e off sz.
@@ -171,18 +177,19 @@ Definition a_get_string_length (e : env) (off : Z) : M (list Z) :=
 
 Definition a_put_string (e : env) (off n : Z) (f : Z -> Z) : M unit :=
   _ <~ hook e off ;;
-  l4 <~ lift (add32 (e_m e) (wrap32 n) 4) ;;
+  l <~ lift (slice_len gen_chk_put_string n) ;;
+  l4 <~ lift (add32 (e_m e) l 4) ;;
   _ <~ check e off l4 ;;
-  _ <~ a_put e 4 off (le_byte (wrap32 n)) ;;
+  _ <~ a_put e 4 off (le_byte l) ;;
   off4 <~ lift (add32 (e_m e) off 4) ;;
   a_put_bytes e off4 n f.
 
 (* as the code is: the check is on (offset, n), the bytes go to offset + 4 (put_bytes checks again) *)
 Definition a_put_string_without_length (e : env) (off n : Z) (f : Z -> Z) : M Z :=
-  _ <~ hook e off ;; _ <~ check e off (wrap32 n) ;;
+  _ <~ hook e off ;; l <~ lift (slice_len gen_chk_put_string_wl n) ;; _ <~ check e off l ;;
   off4 <~ lift (add32 (e_m e) off 4) ;;
   _ <~ a_put_bytes e off4 n f ;;
-  ret (wrap32 n).
+  ret l.
 
 Definition a_get_and_add_i64 (e : env) (off delta : Z) : M (list Z) :=
   _ <~ hook e off ;; _ <~ check e off 8 ;;
